@@ -155,8 +155,19 @@ func SuffixedNames(r *hx.Rand, g gx.G) gx.G {
 	}
 	// now and then a terminal with an alphabetic suffix (TERM strips it before it appends one)
 	tren := map[string]string{}
-	if r.Intn(5) == 0 {
-		if m := t0 + hx.Pick(r, alphaSufs); !used[m] {
+	if r.Intn(4) == 0 {
+		// … or a terminal called exactly what a transformation is about to call a new non-terminal: S′ next to a nullable or
+		// right-hand-side start symbol S, A′ next to a left-recursive or common-prefix A, A₁ next to a long body of A
+		m := t0 + hx.Pick(r, alphaSufs)
+		switch r.Intn(4) {
+		case 0:
+			m = g.Start + "′"
+		case 1:
+			m = base + "′"
+		case 2:
+			m = base + "₁"
+		}
+		if !used[m] {
 			tren[t0] = m
 			used[m] = true
 		}
